@@ -6,7 +6,9 @@ package main
 
 import (
 	"fmt"
+	"math"
 	"math/rand"
+	"sort"
 
 	"github.com/unixpickle/model3d/model2d"
 	"github.com/unixpickle/model3d/model3d"
@@ -329,6 +331,12 @@ func drawRegion(c *vlib.Case, kind int, rigid bool, maxExtent int64, prefix stri
 	var pl *placement
 	if rigid {
 		pl = rigidPlacement(rng, float64(R))
+		if prefix == "sweepangle" {
+			// the library re-expresses coordinates in a frame turned by +0.5037616150469717: an
+			// input turned by the same angle has its own grid axes as sweep axes again
+			pl.cos, pl.sin = math.Cos(0.5037616150469717), math.Sin(0.5037616150469717)
+			pl.desc = "rigid theta=+0.5037616150469717 (the library's internal frame angle) " + pl.desc
+		}
 	} else {
 		pl = exactPlacement(rng)
 	}
@@ -336,6 +344,109 @@ func drawRegion(c *vlib.Case, kind int, rigid bool, maxExtent int64, prefix stri
 	if !ok {
 		c.Undecided("placement not exact or images collide")
 		return nil
+	}
+	if rigid && prefix == "sweepangle" && rng.Intn(2) == 0 {
+		// two vertices that are not joined by an edge get bit-identical coordinates along the
+		// library's internal sweep axis (its fixed rotation does not rule this out): one image is
+		// moved by a few ulps until its rotated x equals the other's (the pre-image, on which the
+		// verdict is taken, is unchanged)
+		sweepX := model2d.NewCoordPolar(0.5037616150469717, 1.0)
+		type vref struct{ l, i int }
+		var all []vref
+		for l := range imgs {
+			for i := range imgs[l] {
+				all = append(all, vref{l, i})
+			}
+		}
+		minEdge := math.Inf(1)
+		for l := range imgs {
+			for i := range imgs[l] {
+				if d := imgs[l][i].Dist(imgs[l][(i+1)%len(imgs[l])]); d < minEdge {
+					minEdge = d
+				}
+			}
+		}
+		// candidate pairs: neighbours in the order along the sweep axis
+		sort.Slice(all, func(i, j int) bool {
+			return sweepX.Dot(imgs[all[i].l][all[i].i]) < sweepX.Dot(imgs[all[j].l][all[j].i])
+		})
+		start := 0
+		if len(all) > 1 {
+			start = rng.Intn(len(all) - 1)
+		}
+		for try := 0; try+1 < len(all) && len(all) >= 4; try++ {
+			k := (start + try) % (len(all) - 1)
+			a, b := all[k], all[k+1]
+			n := len(imgs[a.l])
+			if a.l == b.l && (abs(a.i-b.i) <= 1 || abs(a.i-b.i) == n-1) {
+				continue
+			}
+			target := sweepX.Dot(imgs[a.l][a.i])
+			q := imgs[b.l][b.i]
+			// first bring b onto a's sweep line (a small shift along the sweep axis), then scan ulps
+			shift := target - sweepX.Dot(q)
+			if math.Abs(shift) > 1e-9*minEdge {
+				continue // only pairs that are aligned up to rounding already: the region stays what it is
+			}
+			q2 := q.Add(sweepX.Scale(shift))
+			found := false
+			for k := 0; k < 400 && !found; k++ {
+				cand := q2
+				step := k/2 + 1
+				for s := 0; s < step; s++ {
+					if k%2 == 0 {
+						cand.X = math.Nextafter(cand.X, math.Inf(1))
+					} else {
+						cand.X = math.Nextafter(cand.X, math.Inf(-1))
+					}
+				}
+				if k == 0 {
+					cand = q2
+				}
+				if _, taken := index[cand]; sweepX.Dot(cand) == target && !taken {
+					pre := index[q]
+					delete(index, q)
+					index[cand] = pre
+					imgs[b.l][b.i] = cand
+					found = true
+				}
+			}
+			if found {
+				c.Count(prefix+".pairs_with_identical_sweep_coordinate", 1)
+				break
+			}
+		}
+	}
+	if rigid && prefix == "sweepangle" {
+		// what the input looks like in the library's primary frame (evidence only)
+		sweepX := model2d.NewCoordPolar(0.5037616150469717, 1.0)
+		seen := map[float64]bool{}
+		tie, edgeTie, nearVertical := false, false, false
+		for l := range imgs {
+			for i := range imgs[l] {
+				a, b := imgs[l][i], imgs[l][(i+1)%len(imgs[l])]
+				xa, xb := sweepX.Dot(a), sweepX.Dot(b)
+				if seen[xa] {
+					tie = true
+				}
+				seen[xa] = true
+				if xa == xb {
+					edgeTie = true
+				} else if math.Abs(xa-xb) < 1e-8*a.Dist(b) {
+					nearVertical = true
+				}
+			}
+		}
+		switch {
+		case edgeTie:
+			c.Count(prefix+".primary_frame.edge_with_identical_sweep_coordinates", 1)
+		case tie:
+			c.Count(prefix+".primary_frame.only_unconnected_vertices_with_identical_sweep_coordinate", 1)
+		case nearVertical:
+			c.Count(prefix+".primary_frame.edge_vertical_up_to_rounding_only", 1)
+		default:
+			c.Count(prefix+".primary_frame.generic", 1)
+		}
 	}
 	maxDepth := 0
 	for _, d := range reg.Depth {
@@ -369,11 +480,14 @@ func countDepth(reg *c14ref.Region, d int) int {
 }
 
 func sweepCase(c *vlib.Case, kind int, rigid bool) {
-	rc := drawRegion(c, kind, rigid, 1<<20, "sweep")
+	sweepCaseAt(c, kind, rigid, "sweep", "model2d.TriangulateMesh")
+}
+
+func sweepCaseAt(c *vlib.Case, kind int, rigid bool, prefix, api string) {
+	rc := drawRegion(c, kind, rigid, 1<<20, prefix)
 	if rc == nil {
 		return
 	}
-	api := "model2d.TriangulateMesh"
 	w := mkWitness(api, rc.fam, rc.reg, rc.pl, rc.imgs)
 	mesh := buildMesh(c.Rng, rc.imgs)
 	var out [][3]C2
@@ -405,4 +519,17 @@ func sweepSections(r *vlib.Run) {
 	r.Section("sweep.int", r.N(12000, 140000), vlib.SectionOpts{}, func(c *vlib.Case) { sweepCase(c, 0, false) })
 	r.Section("sweep.rigid", r.N(6000, 70000), vlib.SectionOpts{}, func(c *vlib.Case) { sweepCase(c, 0, true) })
 	r.Section("sweep.bitmap", r.N(5000, 60000), vlib.SectionOpts{}, func(c *vlib.Case) { sweepCase(c, 1, c.Rng.Intn(4) == 0) })
+	// inputs whose own grid axes coincide with the library's internal sweep axes (they are turned
+	// by the angle of its fixed re-framing), some with two vertices made bit-identical along the
+	// sweep axis (DESIGN 23.3: the orientation that defeated the single fixed angle); own API label
+	r.Section("sweep.internal-angle", r.N(1500, 20000), vlib.SectionOpts{}, func(c *vlib.Case) {
+		sweepCaseAt(c, c.Rng.Intn(2), true, "sweepangle", "model2d.TriangulateMesh[input-at-the-internal-sweep-angle]")
+	})
+}
+
+func abs(x int) int {
+	if x < 0 {
+		return -x
+	}
+	return x
 }
